@@ -49,6 +49,20 @@ Theorem C05_fresh_every_frame : forall sc w f fo,
             c_pbuttons (update_state (f_raw f)) = [] /\ c_paxes (update_state (f_raw f)) = [].
 Proof. exact frame_starts_fresh. Qed.
 
+(* frame level: whatever has been consumed so far in the frame (h: the consumed inputs, each with the gamepad
+   setting of the context that consumed it), a binding reads exactly its raw input of this frame, unless an
+   input related to it is among them, in which case it reads inactive; and every action leaves a consumed set
+   of this form, extended by a sub-list of its own inputs at most *)
+Theorem C05_read_in_frame : forall r h dev j,
+  reader_value r (consume_list h (update_state r)) dev j =
+  if hidden h dev j then zero_of j else spec_read r (ui_any r) dev j.
+Proof. exact read_in_frame. Qed.
+Theorem C05_consumed_set_shape : forall m tm r h dev recips ab,
+  exists buf, incl buf (map ib_input (ab_inputs ab)) /\
+    o_consumed (action_update m tm r (consume_list h (update_state r)) dev recips ab) =
+    consume_list (h ++ map (fun i => (dev, i)) buf) (update_state r).
+Proof. exact action_consumed_list. Qed.
+
 Example C05_nonvacuous :
   related None None (IKey 1 2) (IKey 2 2) = true /\ related None None (IKey 1 2) (IKey 1 4) = true /\
   related None None (IKey 1 2) (IKey 2 4) = false /\ related None (Some 0) (IPadButton 0) (IPadButton 0) = false /\
@@ -63,3 +77,5 @@ Print Assumptions C05_action_consumes.
 Print Assumptions C05_nonconsuming_action.
 Print Assumptions C05_state_none_consumes_nothing.
 Print Assumptions C05_fresh_every_frame.
+Print Assumptions C05_read_in_frame.
+Print Assumptions C05_consumed_set_shape.
